@@ -4,13 +4,6 @@ From V Require Import lib.Tree gen.Gen_functions model.C18 proofs.C18 proofs.C18
 Open Scope list_scope.
 Open Scope Q_scope.
 
-(* circular difference of two directions *)
-Definition angdiff_q (a b : Q) : Q := fold180 (qmod360 (Qabs (a - b))).
-Fixpoint tv_ang (l : list Q) : Q :=
-  match l with a :: t => match t with b :: _ => angdiff_q a b + tv_ang t | [] => 0 end | [] => 0 end.
-Definition qmin2 (a b : Q) : Q := if Qle_bool a b then a else b.
-Definition ff_angular_spec (l : list Q) : Q := (tv_ang l - qmin2 (sector_spec l) 180) / nm2 (length l).
-
 Lemma gen_ang_spec a b : gen_angular_difference (XFin a) (XFin b) =x= XFin (angdiff_q a b).
 Proof. unfold gen_angular_difference, angdiff_q, fold180, qmod360, Qltb, zq. xunf.
   cbn -[Qle_bool Qabs Qfloor Qmult Qplus Qminus Qopp Qdiv Qinv]. unfold Qminus.
